@@ -1960,11 +1960,76 @@ theorem frameInto_spec (cfg : Cfg) {t : TCfg} (ht : t.Ok) (r1 : R) (buf : Bytes)
       | error e => exact ⟨hsp.2.1, b2.stable.trans hsp.2.2.1.stable, Res.isErr_not_panic hsp.1⟩
       | ok u => exact ⟨hsp.1, b2.stable.trans hsp.2.1.stable, rfl⟩
 
+/-- `next_frame` when no row of the current frame is pending (`current_interlace_info = None`): the frame counter,
+    then the advance to the next frame if the current one is consumed (mod.rs:407-415) -/
+def nextFrameBuf0 (cfg : Cfg) (t : TCfg) (r : R) (buf : Bytes) : R × Res × Bytes :=
+  if r.remaining = 0 then (r, .err .parameter "PolledAfterEndOfImage", buf) else
+  let adv : R × Except Res Unit := if r.sub.caf then readUntilImageData cfg t r else (r, .ok ())
+  match adv with
+  | (r1, .error e) => (r1, e, buf)
+  | (r1, .ok ()) => frameInto cfg t r1 buf
+
+/-- `next_frame` (repair 429476f): pending rows of the current frame are finished first -/
+theorem nextFrameBuf_eq (cfg : Cfg) (t : TCfg) (r : R) (buf : Bytes) :
+    nextFrameBuf cfg t r buf = if r.sub.cur.isSome then frameInto cfg t r buf else nextFrameBuf0 cfg t r buf := rfl
+
+/-- **rows pending**: `next_frame` is `frameInto`, whatever the frame counter and `consumed_and_flushed` say -/
+theorem nextFrameBuf_some (cfg : Cfg) (t : TCfg) (r : R) (buf : Bytes) (h : r.sub.cur.isSome = true) :
+    nextFrameBuf cfg t r buf = frameInto cfg t r buf := by
+  rw [nextFrameBuf_eq, if_pos h]
+
+theorem nextFrameBuf_none (cfg : Cfg) (t : TCfg) (r : R) (buf : Bytes) (h : r.sub.cur = none) :
+    nextFrameBuf cfg t r buf = nextFrameBuf0 cfg t r buf := by
+  rw [nextFrameBuf_eq, h]; rfl
+
+/-- inside a frame that is not yet consumed (a frame remains): `next_frame` is `frameInto`, rows pending or not -/
+theorem nextFrameBuf_inside (cfg : Cfg) (t : TCfg) (r : R) (buf : Bytes) (hrem : r.remaining ≠ 0)
+    (hcaf : r.sub.caf = false) : nextFrameBuf cfg t r buf = frameInto cfg t r buf := by
+  rw [nextFrameBuf_eq]
+  split
+  · rfl
+  · unfold nextFrameBuf0
+    rw [if_neg hrem, hcaf]
+    simp only [Bool.false_eq_true, if_false]
+
+/-- `next_frame` goes straight into the current frame: rows are pending, or the frame is not yet consumed (and a frame
+    remains) -/
+def Inside (r : R) : Prop := r.sub.cur.isSome = true ∨ (r.remaining ≠ 0 ∧ r.sub.caf = false)
+
+theorem nextFrameBuf_of_inside (cfg : Cfg) (t : TCfg) (r : R) (buf : Bytes) (h : Inside r) :
+    nextFrameBuf cfg t r buf = frameInto cfg t r buf := by
+  rcases h with h | ⟨h1, h2⟩
+  · exact nextFrameBuf_some cfg t r buf h
+  · exact nextFrameBuf_inside cfg t r buf h1 h2
+
+/-- the three ways into `next_frame`: straight into the current frame; no row pending and no frame left; no row pending,
+    the frame consumed and a frame left -/
+theorem inside_cases (r : R) :
+    Inside r ∨ (r.sub.cur = none ∧ r.remaining = 0) ∨ (r.sub.cur = none ∧ r.remaining ≠ 0 ∧ r.sub.caf = true) := by
+  cases hcur : r.sub.cur with
+  | some ii => exact Or.inl (Or.inl (by rw [hcur]; rfl))
+  | none =>
+    by_cases hrem : r.remaining = 0
+    · exact Or.inr (Or.inl ⟨rfl, hrem⟩)
+    · cases hcaf : r.sub.caf with
+      | false => exact Or.inl (Or.inr ⟨hrem, hcaf⟩)
+      | true => exact Or.inr (Or.inr ⟨rfl, hrem, rfl⟩)
+
+/-- no row pending and no frame left -/
+theorem nextFrameBuf_polled (cfg : Cfg) (t : TCfg) (r : R) (buf : Bytes) (hcur : r.sub.cur = none) (hrem : r.remaining = 0) :
+    nextFrameBuf cfg t r buf = (r, .err .parameter "PolledAfterEndOfImage", buf) := by
+  rw [nextFrameBuf_none cfg t r buf hcur]
+  unfold nextFrameBuf0
+  rw [if_pos hrem]
+
 /-- **`next_frame`** -/
 theorem nextFrameBuf_spec (cfg : Cfg) {t : TCfg} (ht : t.Ok) (r : R) (buf : Bytes) (hI : Inv t r) :
     match nextFrameBuf cfg t r buf with
     | (r', res, _) => Inv t r' ∧ Stable r r' ∧ res.isPanic = false := by
-  unfold nextFrameBuf
+  by_cases hc : r.sub.cur.isSome = true
+  · rw [nextFrameBuf_some cfg t r buf hc]; exact frameInto_spec cfg ht r buf hI
+  rw [nextFrameBuf_eq, if_neg hc]
+  unfold nextFrameBuf0
   by_cases hrem : r.remaining = 0
   · rw [if_pos hrem]; exact ⟨hI, Stable.refl _, rfl⟩
   · rw [if_neg hrem]
